@@ -316,6 +316,10 @@ class Range(object):
                     elif (next_type == token.OP) and (next_value == "-"):
                         after_hyphen = True
                     elif next_value in (ELLIPSIS, ":"):
+                        if ellipsis_found:
+                            raise errors.InterfaceError(
+                                "range must contain at most one ellipsis (...) between two commas", location
+                            )
                         ellipsis_found = True
                     else:
                         raise errors.InterfaceError(
@@ -648,6 +652,10 @@ class DecimalRange(Range):
                     elif (next_type == token.OP) and (next_value == "-"):
                         after_hyphen = True
                     elif next_value in (ELLIPSIS, ":"):
+                        if ellipsis_found:
+                            raise errors.InterfaceError(
+                                "range must contain at most one ellipsis (...) between two commas", location
+                            )
                         ellipsis_found = True
                     else:
                         message = (
